@@ -1,7 +1,8 @@
 import AsynqModel.Sexp
 import AsynqModel.Lib.Asyncio
 /-! driver glue for mode `asyncio` (property C15): parse the program and the implementation's observations under the five
-    ways of running it, run the model, diff, evaluate `Asyncio.spec` on the implementation's observations -/
+    ways of running it, run the model, diff, evaluate `Asyncio.specClauseP` (the observation-only clauses `specClause`, then the
+    program-aware ones `specObsP`) on the implementation's observations -/
 namespace AsynqModel.Drv.Asyncio
 open AsynqModel AsynqModel.Asyncio
 open AsynqModel.Core (Val)
@@ -71,6 +72,9 @@ partial def ys? : Sexp → Option Ys
   | .atom "junk" => some .junk
   | .list [.atom "const", v] => v.nat?.map .const
   | .list [.atom "pconst", v] => v.nat?.map .pconst
+  -- a future that is not a ConstFuture: ErrorFuture(user error n) / the lazy Future(lambda: n)
+  | .list [.atom "efut", n] => n.nat?.map (.ofut true)
+  | .list [.atom "lfut", n] => n.nat?.map (.ofut false)
   | .list [.atom "task", c, p] => do some (.task (← call? c) (← prog? p))
   | .list (.atom "tup" :: l) => (l.mapM ys?).map (fun x => .tup (toYsL x))
   | .list (.atom "lst" :: l) => (l.mapM ys?).map (fun x => .lst (toYsL x))
@@ -123,7 +127,8 @@ def obs? : Sexp → Option Obs
 
 /-- per-task form of a log: `Asyncio.canonE`, the stable sort by task label (the interleaving of different tasks is the event
     loop's / the scheduler's business and is not compared).  `diffObs` below reports a difference exactly when
-    `Asyncio.sameView` is false; theorem `C15_spec_respects_correspondence`: then CORR=ok implies SPEC = SPECM. -/
+    `Asyncio.sameView` is false (by reading; no theorem); theorem `C15_spec_respects_correspondence`: `sameViews` implies
+    SPEC = SPECM. -/
 def canonObs (ob : Obs) : Obs := { ob with log := canonE ob.log }
 
 def convName : Conv → String
@@ -166,8 +171,9 @@ def handle (id : Nat) (hdr : List Sexp) (body : List Sexp) : String :=
     | some c, some p, some impl =>
       let model := observe c p
       let corr := firstDiff model impl
-      let spec := specClause impl
-      let specm := specClause model
+      -- `specClausePWith model` = `specClauseP` (by definition), with the model run once
+      let spec := specClausePWith model c p impl
+      let specm := specClausePWith model c p model
       let cs := match corr with | none => "ok" | some _ => "diff"
       let d := match corr with | none => "" | some s => (s.replace "\n" " ")
       let f (s : String) := if s == "ok" then "ok" else "fail:" ++ s
